@@ -92,8 +92,24 @@ func split(src string) (header []string, chunks []chunk, tail []string, ok bool)
 
 var padN int
 
+// echoLabels: the label names of the file being transformed. A padding function may use them too
+// (labels are function-scoped): whatever a checker keeps per file keyed by a *name* is then exposed.
+var echoLabels []string
+
+var labelRE = regexp.MustCompile(`(?m)^\s*([A-Za-z_]\w*):(\s*$|\s*//|\s+(?:for|switch|select|\{))`)
+
 func padding(rng *rand.Rand) chunk {
 	padN++
+	if len(echoLabels) > 0 && rng.Intn(2) == 0 {
+		l := echoLabels[rng.Intn(len(echoLabels))]
+		var s string
+		if rng.Intn(2) == 0 {
+			s = fmt.Sprintf("func vpad_%d(n int) int {\n\tif n > 0 {\n\t\tgoto %s\n\t}\n\tn++\n%s:\n\treturn n\n}", padN, l, l)
+		} else {
+			s = fmt.Sprintf("func vpad_%d(xs []int) int {\n\tn := 0\n%s:\n\tfor _, x := range xs {\n\t\tfor x > n {\n\t\t\tn++\n\t\t\tif n > 100 {\n\t\t\t\tbreak %s\n\t\t\t}\n\t\t}\n\t}\n\treturn n\n}", padN, l, l)
+		}
+		return chunk{lines: append([]string{""}, strings.Split(s, "\n")...), pad: true}
+	}
 	forms := []string{
 		"func vpad_%d(a int) int {\n\treturn a\n}",
 		"var vpad_%d = 1",
@@ -120,6 +136,12 @@ func transform(src string, mode int, rng *rand.Rand) (string, bool) {
 	header, chunks, tail, ok := split(src)
 	if !ok {
 		return src, false
+	}
+	echoLabels = echoLabels[:0]
+	for _, m := range labelRE.FindAllStringSubmatch(src, -1) {
+		if m[1] != "default" {
+			echoLabels = append(echoLabels, m[1])
+		}
 	}
 	if mode&4 != 0 { // T3
 		var idx []int
